@@ -383,13 +383,16 @@ func writeLinkEvents(dir string, opts GlobalOptions, eventType string, edges []s
 	})
 }
 
-func createTask(dir string, opts GlobalOptions, epicID string, isEpic bool, title, body string) (createOutput, error) {
+// createTask records a new task or epic. Initial field updates for a task
+// (state, claim, result) are validated and recorded in the same locked step as
+// the creation, so a rejected update creates nothing.
+func createTask(dir string, opts GlobalOptions, epicID string, isEpic bool, title, body string, updates map[string]string) (createOutput, error) {
 	eventsPath := getEventsPath(dir)
 	lockPath := filepath.Join(dir, "lock")
-	return createTaskWithDir(dir, opts, lockPath, eventsPath, epicID, isEpic, title, body)
+	return createTaskWithDir(dir, opts, lockPath, eventsPath, epicID, isEpic, title, body, updates)
 }
 
-func createTaskWithDir(dir string, opts GlobalOptions, lockPath, eventsPath, epicID string, isEpic bool, title, body string) (createOutput, error) {
+func createTaskWithDir(dir string, opts GlobalOptions, lockPath, eventsPath, epicID string, isEpic bool, title, body string, updates map[string]string) (createOutput, error) {
 	var output createOutput
 	err := withLock(lockPath, syscall.LOCK_EX, func() error {
 		graph, err := loadGraph(dir)
@@ -434,7 +437,23 @@ func createTaskWithDir(dir string, opts GlobalOptions, lockPath, eventsPath, epi
 		if err != nil {
 			return err
 		}
-		if err := appendEvents(eventsPath, []Event{event}); err != nil {
+		events := []Event{event}
+		state, claimedBy := stateTodo, ""
+		if len(updates) > 0 {
+			task := &Task{ID: id, UUID: uuid, EpicID: payload.EpicID, IsEpic: isEpic, State: stateTodo, Title: title, Body: body, CreatedAt: now, UpdatedAt: now}
+			updateEvents, err := buildUpdateEvents(filepath.Dir(dir), task, updates, opts.AgentID, now)
+			if err != nil {
+				return err
+			}
+			events = append(events, updateEvents...)
+			// Report the task as these events leave it.
+			created, err := replayEvents(events)
+			if err != nil {
+				return err
+			}
+			state, claimedBy = created.Tasks[id].State, created.Tasks[id].ClaimedBy
+		}
+		if err := appendEvents(eventsPath, events); err != nil {
 			return err
 		}
 		kind := "task"
@@ -446,7 +465,8 @@ func createTaskWithDir(dir string, opts GlobalOptions, lockPath, eventsPath, epi
 			ID:        id,
 			UUID:      uuid,
 			EpicID:    payload.EpicID,
-			State:     stateTodo,
+			State:     state,
+			ClaimedBy: claimedBy,
 			Title:     title,
 			Body:      body,
 			CreatedAt: payload.CreatedAt,
